@@ -439,6 +439,24 @@ class Machine:
                     ok2, _ = values_equal(canon_result(again), ca)
                     ctx.check(ok2, "requery_after_caller_edit_unchanged",
                               lambda: f"step {k} op={name} operands={idxs}: asking again after the caller edited the first answer gives {describe(canon_result(again))} instead of {describe(ca)}")
+            if name in ("add", "sub", "mul", "div") and hasattr(res_shared, "to_stacked_vector"):
+                # the result of arithmetic is a new object: the caller zeroes / reconfigures / writes into a second result
+                # of the same operation; neither the operands nor the first result may move
+                twin = run_guarded(name, [e["obj"] for e in entries], params, self.env)
+                if hasattr(twin, "to_stacked_vector"):
+                    try:
+                        twin.set_mode_proj_order("ineq_eq" if twin.mode_proj_order == "eq_ineq" else "eq_ineq")
+                        twin.set_zero()
+                    except Exception:
+                        pass
+                    for arr in ([getattr(twin, "_vec", None), getattr(twin, "_hs", None)]
+                                + list(getattr(twin, "_vecs", None) or []) + list(getattr(twin, "_hss", None) or [])):
+                        if isinstance(arr, np.ndarray) and arr.flags.writeable and arr.size:
+                            arr.reshape(-1)[0] += 1.0
+                    ctx.label("arith-result-edited")
+                    self.check_snapshots(f"{k}:{name}:caller-edited-second-result")
+                    ok3, _ = values_equal(canon_result(res_shared), ca)
+                    ctx.check(ok3, "first_result_unchanged_after_editing_second", f"step {k} op={name}")
             for e in entries:
                 if e["uses"] > 0 and (e["expr"][0] == "op" or name.startswith("proj")):
                     self.nontrivial = True
@@ -564,7 +582,7 @@ def step_st(draw):
     if name in ("is_physical_atol", "set_atol_query"):
         p["atol"] = draw(st.sampled_from([1e-13, 1e-9, 1e-5, 1e-2]))
     if name in ("mul", "div"):
-        p["s"] = draw(st.sampled_from([2.0, 0.5, -1.0, 3.0]))
+        p["s"] = draw(st.sampled_from([2.0, 0.5, -1.0, 3.0, 1.0, 1.0]))  # 1.0: normalising an already normalised object
     if name == "gradient":
         p["k"] = draw(st.integers(0, 500))
     if name == "to_comp_basis":
